@@ -50,6 +50,13 @@ CLAIMED["C09"] = dict(
     design_ref="§5 C09",
 )
 
+CLAIMED["C10"] = dict(
+    category="exploration",
+    technique="bounded-exhaustive lattice enumeration (every contribution-selector getter x models x T x density ladder; every shipped ideal-gas record); sum-rule and re-implemented closed-form oracles",
+    text="Every getter that accepts a contribution selector is evaluated for IdealGas, Residual and Total on the whole lattice (sum rule, cancellation-aware scale), the ideal pressure is compared with rho R T in SI, residual properties are followed down the density ladder to 1e-12 eta_max, and the heat capacity obtained by differentiating the Helmholtz energy is compared with the DIPPR 100/107/127 and Joback correlations re-implemented in the harness for every shipped record plus synthetic 107/127 records, for mixtures and for ideal mixing.",
+    design_ref="§5 C10",
+)
+
 NOT_YET = "check not built yet (work in progress; see DESIGN.md §9 build order) - not a claim that the technique cannot apply"
 
 ALL = ["C%02d" % i for i in range(1, 21)]
